@@ -447,7 +447,7 @@ func init() {
 	})
 	vc.Register(&vc.Check{
 		ID: "C16", Level: "model_checking",
-		Rule: "(a) Package.StatisticalMissSegments on EVERY set of pairwise disjoint received chunks for file sizes 1..10 (thorough 12), plus every chunk set of the small shapes scaled by 2^28, 2^29, 0x1FFFFFFF, 0x33333333, 0x7FFFFFFF and 0xFFFFFFFF (files of gigabytes: offsets and lengths beyond 2^31, sizes up to 2^32-1), plus sizes up to 600 with 255 single-byte gaps, adjacent chunks, gaps at start/middle/end; (b) the wire form: T0x1212.ReplyBody -> P0x9212.Encode decoded by the reference and by P0x9212.Parse for every such gap list; (c) over the socket for sizes <= 5: announce, send every disjoint chunk set in every order (<= 3 chunks), 0x1212 -> 'retransmit' with exactly the gaps, resend exactly those, 0x1212 -> 'complete'; and two files (3 and 2 bytes) in one session: every pair of chunk sets, either file's chunks first, 0x1212 for both (the report is about the file it names, whichever file's chunk came last). " +
+		Rule: "(a) Package.StatisticalMissSegments on EVERY set of pairwise disjoint received chunks for file sizes 1..10 (thorough 12), plus every chunk set of the small shapes scaled by 2^28, 2^29, 0x1FFFFFFF, 0x33333333, 0x7FFFFFFF and 0xFFFFFFFF (files of gigabytes: offsets and lengths beyond 2^31, sizes up to 2^32-1), plus sizes up to 600 with 255 single-byte gaps, adjacent chunks, gaps at start/middle/end; each report must also still read the same after the next case's report has been computed; (b) the wire form: T0x1212.ReplyBody -> P0x9212.Encode decoded by the reference and by P0x9212.Parse for every such gap list; (c) over the socket for sizes <= 5: announce, send every disjoint chunk set in every order (<= 3 chunks), 0x1212 -> 'retransmit' with exactly the gaps, resend exactly those, 0x1212 -> 'complete'; and two files (3 and 2 bytes) in one session: every pair of chunk sets, either file's chunks first, 0x1212 for both (the report is about the file it names, whichever file's chunk came last). " +
 			"states = distinct (size, received set) states, transitions = evaluations. Non-trivial = at least one gap",
 		Assumptions: []string{"reference interval complement in checks/c15.go"},
 		Run:         c16Run,
@@ -788,6 +788,12 @@ type missCase struct {
 	Unit int `json:"unit,omitempty"`
 }
 
+var (
+	c16PrevRes   []model.P0x9212RetransmitPacket
+	c16PrevSnap  string
+	c16PrevWhere string
+)
+
 func missEval(c missCase) (sig, diag string) {
 	unit := max(c.Unit, 1)
 	p := &attachment.Package{FileName: "f", FileSize: uint32(c.Size * unit), OffsetRecord: map[int]int{}, OffsetDataRecord: map[int][]byte{}}
@@ -819,6 +825,14 @@ func missEval(c missCase) (sig, diag string) {
 			return "miss:depends-on-arrival-order", fmt.Sprintf("with chunk at offset %d as the last arrival the report is %v, with offset 0 recorded it is %v (%s)", last[0], res, first, where)
 		}
 	}
+	// the report computed for the PREVIOUS case of this worker (another file, as another connection would have) is still
+	// what it was: a report handed to a caller is not rewritten by the next computation
+	if c16PrevRes != nil && fmt.Sprint(c16PrevRes) != c16PrevSnap {
+		d := fmt.Sprintf("the report computed earlier for %s was %s; after computing the report for %s it reads %v", c16PrevWhere, c16PrevSnap, where, c16PrevRes)
+		c16PrevRes = nil
+		return "miss:earlier-report-rewritten", d
+	}
+	c16PrevRes, c16PrevSnap, c16PrevWhere = res, fmt.Sprint(res), where
 	if len(want) == 0 && res != nil {
 		return "miss:complete-not-nil", fmt.Sprintf("file fully received but %d ranges reported (%s)", len(res), where)
 	}
